@@ -71,3 +71,40 @@ pub open spec fn text_chars(items: Seq<PoeticNumberLiteralTemplateItem>) -> Seq<
 /// `format!("{} is {}", a, b)`
 #[verifier::external_body] pub fn fmt_is(a: String, b: String) -> (r: String) ensures r@ == a@ + " is "@ + b@ { unimplemented!() }
 #[verifier::external_body] pub fn fmt_rock(a: String, b: String) -> (r: String) { unimplemented!() }
+
+// ---- report condition model
+#[verifier::external_body] pub struct AssignmentLHS { _p: u8 }
+#[verifier::external_body] pub struct AssignmentRHS { _p: u8 }
+#[verifier::external_body] pub struct Expression { _p: u8 }
+#[verifier::external_body] pub struct PoeticNumberLiteral { _p: u8 }
+#[verifier::external_body] pub struct StringConstant { _p: u8 }
+#[verifier::external_body] pub struct BinaryOperator { _p: u8 }
+pub enum CFE { NoType, UnknownValue, WrongType, NeedMoreInfo, PossibleValueIgnored }     // ConstantFoldingError (tools.rs)
+//@item src/frontend/ast.rs | struct | Assignment
+//@end
+//@item src/frontend/ast.rs | enum | PoeticNumberAssignmentRHS
+//@end
+//@item src/frontend/ast.rs | struct | PoeticNumberAssignment
+//@end
+pub struct BoringAssignmentPass;
+pub enum Report { Nothing, Numeric(AssignmentLHS, NumericConstant, u32), Str(AssignmentLHS, StringConstant, u32) }
+#[verifier::external_body] pub struct DiagsB { _p: u8 }      // DiagsBuilder
+impl DiagsB {
+    pub uninterp spec fn what(self) -> Report;
+    #[verifier::external_body] pub fn empty() -> (r: DiagsB) ensures r.what() == Report::Nothing { unimplemented!() }
+}
+pub uninterp spec fn sp_fold_num_rhs(r: AssignmentRHS) -> Result<NumericConstant, CFE>;
+pub uninterp spec fn sp_fold_str_rhs(r: AssignmentRHS) -> Option<StringConstant>;
+pub uninterp spec fn sp_fold_num_expr(r: Expression) -> Result<NumericConstant, CFE>;
+pub uninterp spec fn sp_fold_str_expr(r: Expression) -> Option<StringConstant>;
+#[verifier::external_body] pub fn fold_numeric_rhs(r: &AssignmentRHS) -> (o: Result<NumericConstant, CFE>) ensures o == sp_fold_num_rhs(*r) { unimplemented!() }
+#[verifier::external_body] pub fn fold_string_rhs(r: &AssignmentRHS) -> (o: Option<StringConstant>) ensures o == sp_fold_str_rhs(*r) { unimplemented!() }
+#[verifier::external_body] pub fn fold_numeric_expr(r: &Expression) -> (o: Result<NumericConstant, CFE>) ensures o == sp_fold_num_expr(*r) { unimplemented!() }
+#[verifier::external_body] pub fn fold_string_expr(r: &Expression) -> (o: Option<StringConstant>) ensures o == sp_fold_str_expr(*r) { unimplemented!() }
+#[verifier::external_body] pub fn build_numeric_diag(var: &AssignmentLHS, val: NumericConstant, line: u32) -> (r: DiagsB) ensures r.what() == Report::Numeric(*var, val, line) { unimplemented!() }
+#[verifier::external_body] pub fn maybe_build_string_diag(var: &AssignmentLHS, val: Option<StringConstant>, line: u32) -> (r: DiagsB)
+    ensures r.what() == (match val { Some(sv) => Report::Str(*var, sv, line), None => Report::Nothing }) { unimplemented!() }
+impl Assignment { pub uninterp spec fn spec_line(&self) -> u32;
+    #[verifier::external_body] pub fn line(&self) -> (r: u32) ensures r == self.spec_line() { unimplemented!() } }
+impl Expression { pub uninterp spec fn spec_line(&self) -> u32;
+    #[verifier::external_body] pub fn line(&self) -> (r: u32) ensures r == self.spec_line() { unimplemented!() } }
